@@ -42,6 +42,12 @@ type c31Scenario struct {
 	// PerClient: connections are accepted by a listener Config with unrelated explicit ticket keys whose
 	// GetConfigForClient returns server A's Config; the keys that count are A's (explicit/legacy key modes)
 	PerClient bool      `json:"per_client,omitempty"`
+	// Suite12: the TLS <= 1.2 client starts with one suite B only; the event client_suites later lists other suites ahead
+	// of B (B still offered). A session made under B then resumes under B or not at all.
+	Suite12 bool `json:"suite12,omitempty"`
+	// Keyless: server A's Config has a GetConfigForClient that returns a Config without ticket keys of its own (1: the
+	// same object every time, 2: a fresh one per connection); the documented rule is that A's keys then apply
+	Keyless int `json:"keyless,omitempty"`
 	Events   []c31Event `json:"events"`
 	Net      NetCfg     `json:"net"`
 	Tape     []int      `json:"tape,omitempty"`
@@ -63,6 +69,10 @@ func genC31(seed uint64, tier string) any {
 	}
 	sc.Suite384 = sc.Version == vTLS13 && r.Chance(1, 4)
 	sc.PerClient = sc.KeyMode != "auto" && r.Chance(1, 4)
+	sc.Suite12 = sc.Version < vTLS13 && r.Chance(1, 4)
+	if !sc.PerClient && r.Chance(1, 5) {
+		sc.Keyless = 1 + r.Intn(2)
+	}
 	sc.Net = NetCfg{SegMode: r.Intn(2), MaxSeg: []int{0, 100, 1460}[r.Intn(3)], LatMinUs: 100, LatMaxUs: 2000}
 	n := r.Range(3, 8)
 	sc.Events = append(sc.Events, c31Event{Kind: "connect"})
@@ -82,10 +92,12 @@ func genC31(seed uint64, tier string) any {
 		pskw := 0
 		if sc.Version == vTLS13 {
 			pskw = 3
+		} else if sc.Suite12 {
+			pskw = 2
 		}
 		switch r.Pick([]int{0, 2, 2, 3, 6, 2, 1, 1, 2, 1, pskw}) {
 		case 10:
-			if sc.Suite384 && r.Chance(1, 3) {
+			if sc.Suite384 && r.Chance(1, 3) || sc.Suite12 {
 				sc.Events = append(sc.Events, c31Event{Kind: "client_suites"})
 				break
 			}
@@ -241,6 +253,20 @@ func execC31(t *testing.T, scAny any, keepLog bool) *Outcome {
 			acceptCfg = func() *tls.Config { listener.MaxVersion = srvA.MaxVersion; return listener }
 			o.count("probe.per_client_config", 1)
 		}
+		if sc.Keyless != 0 {
+			pc, n := mk("perclient"), 0
+			getter := func(*tls.ClientHelloInfo) (*tls.Config, error) {
+				c := pc
+				if sc.Keyless == 2 {
+					n++
+					c = mk(fmt.Sprintf("perclient%d", n))
+				}
+				c.MaxVersion = srvA.MaxVersion
+				return c, nil
+			}
+			acceptCfg = func() *tls.Config { srvA.GetConfigForClient = getter; return srvA }
+			o.count("probe.per_client_config_keyless", 1)
+		}
 		cache := &simCache{cur: map[string]*tls.ClientSessionState{}}
 		ccfg := clientConfig(EndCfg{MaxVersion: sc.Version, Cache: true}, s, run.R.Derive("cli-rand"))
 		ccfg.Time = clock
@@ -251,6 +277,14 @@ func execC31(t *testing.T, scAny any, keepLog bool) *Outcome {
 		}
 		if sc.Suite384 {
 			ccfg.CipherSuites = []uint16{0x1302, 0xc02f, 0xc02b, 0xc030, 0xc02c, 0xc013, 0xc009, 0xc014, 0xc00a, 0x002f, 0x0035}
+		}
+		// Suite12: B is the plainest suite the server's key allows; the later list puts stronger ones first
+		suite12After := []uint16{0x1301, 0xc02f, 0xc013, 0x002f}
+		if sc.Key != "rsa" {
+			suite12After = []uint16{0x1301, 0xc02b, 0xc00a, 0xc009}
+		}
+		if sc.Suite12 {
+			ccfg.CipherSuites = []uint16{0x1301, suite12After[3]}
 		}
 		var issued []issuedTicket
 		// Model of the documented automatic key management ("rotated every day and dropped after seven
@@ -322,6 +356,11 @@ func execC31(t *testing.T, scAny any, keepLog bool) *Outcome {
 					ccfg.CipherSuites = []uint16{0x1301, 0x1302, 0xc02f, 0xc02b, 0xc030, 0xc02c, 0xc013, 0xc009, 0xc014, 0xc00a, 0x002f, 0x0035}
 					suitesChangedAt, suitesChanged = clock(), true
 					o.count("fault.client_suite_preference_changed", 1)
+				}
+				if sc.Suite12 {
+					ccfg.CipherSuites = suite12After
+					suitesChangedAt, suitesChanged = clock(), true
+					o.count("fault.client_suite_preference_changed_tls12", 1)
 				}
 			case "client_max":
 				ccfg.MaxVersion = ev.Max
